@@ -381,6 +381,22 @@ class AngularK(Kind):
         return inst.update(q, g, method=inst.method, order=inst.order, **_kw_dt(dt_call, inst.Dt))
 
 
+class AngularIntegration(Kind):
+    """AngularRate(method='integration'): cumulative angular positions, batch only, three representations."""
+    name, sensors, streaming = 'angular_integration', 'g', False
+
+    def ctor_kwargs(self, p, dt, dip):
+        kw = dict(_dt_kwargs(p, dt))
+        kw['method'] = 'integration'
+        kw['representation'] = p.get('representation', 'quaternion')
+        return kw
+
+    def batch(self, p, dt, dip, gyr, acc, mag):
+        o = _f().AngularRate(gyr=gyr, **self.ctor_kwargs(p, dt, dip))
+        rep = p.get('representation', 'quaternion')
+        return o, np.asarray({'quaternion': getattr(o, 'Q', None), 'rotmat': getattr(o, 'R', None), 'angles': getattr(o, 'W', None)}[rep])
+
+
 class FKFk(Kind):
     name, sensors, streaming = 'fkf', 'gam', False
 
@@ -573,7 +589,7 @@ class AQUAAlg(SingleFrame):
 
 KINDS = {k.name: k() for k in (
     MadgwickIMU, MadgwickMARG, MahonyIMU, MahonyMARG, EKFIMU, EKFMARG, UKFk,
-    AQUAIMU, AQUAMARG, FouratiK, ROLEQk, AngularK, FKFk, ComplementaryIMU,
+    AQUAIMU, AQUAMARG, FouratiK, ROLEQk, AngularK, AngularIntegration, FKFk, ComplementaryIMU,
     ComplementaryMARG, OLEQk, FLAEk, TiltK, TiltAcc, SAAMk, FAMCk, FQAk, QUESTk,
     DavenportK, TRIADk, AQUAAlg)}
 
@@ -647,7 +663,7 @@ def gen_params(rnd, kind, *, with_q0=True, defaults_prob=0.3):
         p['method'] = rnd.choice(['symbolic', 'eig', 'newton'])
         if rnd.random() < 0.5:
             p['weights'] = [rnd.uniform(0.1, 2), rnd.uniform(0.1, 2)]
-    elif kind in ('tilt', 'tilt_acc'):
+    elif kind in ('tilt', 'tilt_acc', 'angular_integration'):
         p['representation'] = rnd.choice(['quaternion', 'rotmat', 'angles'])
     elif kind == 'saam':
         p['representation'] = rnd.choice(['quaternion', 'rotmat'])
